@@ -100,7 +100,7 @@ def build_cases(ctx, stream: str, n: int) -> list[dict]:
                         default_response=False, self_ref=False)
         else:
             o = gs.Opts(mainstream=True, always_opid=True, max_ops=4, enum_params=False, formats=("date-time", "date", "byte"), text_binary=True,
-                        streaming=True, unions=True, ndjson=True, multi_media_resp=True)
+                        streaming=True, unions=True, ndjson=True, multi_media_resp=True, multi_tags=True)
         doc = gs.gen_spec(r, o) if o is not None else WITNESS_DOC
         if stream == "nullable":
             doc, nplan = nullable_doc(r, first=(i == 0))
@@ -133,7 +133,8 @@ def build_cases(ctx, stream: str, n: int) -> list[dict]:
                         rp["expect"]["is_object"] = "$ref" in sch and is_objectish(doc, sch)
                         rp["expect"]["items_object"] = sch.get("type") == "array" and "$ref" in (sch.get("items") or {}) and is_objectish(doc, sch["items"])
                     primary = c == primary_code(op["responses"])
-                    calls.append({**base, "reply": rp["reply"], "expect_outcome": rp["expect"], "code": c, "primary": primary, "media_type": rp.get("media_type"),
+                    for loc in (opsrig.locate_all(op) if rep == 0 else [{}]):      # first reply: through every tag client's rendering
+                      calls.append({**base, **loc, "reply": rp["reply"], "expect_outcome": rp["expect"], "code": c, "primary": primary, "media_type": rp.get("media_type"),
                                   "n_2xx": len(codes2), "op": {"path": path, "method": m, "operationId": op["operationId"]},
                                   "features": resp_features(doc, sch, rp, op)})
         cases.append({"id": f"{stream}-{i}", "stream": stream, "doc": doc, "calls": calls, "shadow_first": i % 2 == 1})
